@@ -3,6 +3,7 @@ package storage
 import (
 	"context"
 	"errors"
+	"fmt"
 	"sort"
 	"time"
 
@@ -161,6 +162,14 @@ func (s *Store) ReadFilter(ctx context.Context, req *datatypes.ReadFilterRequest
 func (s *Store) ReadGroup(ctx context.Context, req *datatypes.ReadGroupRequest) (reads.GroupResultSet, error) {
 	if req.ReadSource == nil {
 		return nil, errors.New("missing read source")
+	}
+
+	// The result set constructors panic on values they do not implement.
+	if req.Group != datatypes.GroupBy && req.Group != datatypes.GroupNone {
+		return nil, fmt.Errorf("unsupported group mode: %d", int32(req.Group))
+	}
+	if agg := req.Aggregate; agg != nil && agg.Type != datatypes.AggregateTypeSum && agg.Type != datatypes.AggregateTypeCount {
+		return nil, fmt.Errorf("unsupported aggregate type: %d", int32(agg.Type))
 	}
 
 	source, err := GetReadSource(*req.ReadSource)
